@@ -467,6 +467,10 @@ pub struct YamlSerializer<'a, W: Write> {
     after_dash_depth: Option<usize>,
     /// Current block map indentation depth (for aligning sequences under a map key).
     current_map_depth: Option<usize>,
+    /// True while the value of a mapping that started inline after a sequence dash is being
+    /// written: the keys of such a mapping sit two columns after the dash rather than on a
+    /// multiple of the indentation step.
+    current_map_after_dash: bool,
     /// If true, quote all string scalars. Uses single quotes by default, but switches to
     /// double quotes when the string contains escape sequences or single quotes.
     quote_all: bool,
@@ -508,6 +512,7 @@ impl<'a, W: Write> YamlSerializer<'a, W> {
             last_value_was_block: false,
             after_dash_depth: None,
             current_map_depth: None,
+            current_map_after_dash: false,
             quote_all: false,
             yaml_12: false,
             doc_started: false,
@@ -1048,8 +1053,16 @@ impl<'a, 'b, W: Write> Serializer for &'a mut YamlSerializer<'b, W> {
             // N = indent_step * body_base = number of spaces the parser will strip.
             // We must emit an explicit indicator when the first non-empty content line
             // has leading whitespace, so the parser knows how much to strip.
+            // The indicator counts from the indentation of the parent node, and the body is
+            // written one step deeper than that.
             let body_base = base + 1;
-            let indent_n = self.indent_step * body_base;
+            let indent_n = if was_map_value && self.current_map_after_dash {
+                // Keys of this mapping are aligned two columns after the dash of the enclosing
+                // sequence item, one step (minus those two columns) left of `base`.
+                (2 * self.indent_step).saturating_sub(2)
+            } else {
+                self.indent_step
+            };
 
             // Check if we need an explicit indentation indicator.
             // Required when the first non-empty line has leading whitespace.
@@ -1057,8 +1070,14 @@ impl<'a, 'b, W: Write> Serializer for &'a mut YamlSerializer<'b, W> {
             let first_line_spaces = crate::wrapping::first_line_leading_spaces(content_trimmed);
             let needs_indicator = first_line_spaces > 0;
 
-            // If N > 9, YAML parsers reject it. Fall back to quoting.
-            if needs_indicator && indent_n > 9 {
+            // If N > 9, YAML parsers reject it. Content that a block scalar cannot carry
+            // unchanged is quoted as well.
+            // (The explicit wrappers keep their historical output for "" and "\n".)
+            let historical_empty = !self.pending_str_from_auto && (v.is_empty() || v == "\n");
+            if (needs_indicator && indent_n > 9)
+                || indent_n == 0
+                || !(historical_empty || crate::wrapping::fits_block_scalar(v))
+            {
                 // Reset state and fall through to quoted string handling
                 self.pending_str_style = None;
                 self.pending_str_from_auto = false;
@@ -2168,8 +2187,11 @@ impl<'a, 'b, W: Write> SerializeMap for MapSer<'a, 'b, W> {
                 self.ser.depth = self.depth;
             }
             let prev_map_depth = self.ser.current_map_depth.replace(self.depth);
+            let prev_after_dash =
+                std::mem::replace(&mut self.ser.current_map_after_dash, self.align_after_dash);
             let result = value.serialize(&mut *self.ser);
             self.ser.current_map_depth = prev_map_depth;
+            self.ser.current_map_after_dash = prev_after_dash;
             // Always restore the parent's pending_inline_map to avoid leaking inline hints
             // across sibling values (e.g., after finishing a sequence value like `groups`).
             self.ser.pending_inline_map = saved_pending_inline_map;
@@ -2269,8 +2291,10 @@ impl<'a, 'b, W: Write> SerializeStructVariant for StructVariantSer<'a, 'b, W> {
         self.ser.at_line_start = false;
         // Ensure nested mappings/collections used as this field's value indent relative to this struct variant.
         let prev_map_depth = self.ser.current_map_depth.replace(self.depth);
+        let prev_after_dash = std::mem::replace(&mut self.ser.current_map_after_dash, false);
         let result = value.serialize(&mut *self.ser);
         self.ser.current_map_depth = prev_map_depth;
+        self.ser.current_map_after_dash = prev_after_dash;
         result
     }
     fn end(self) -> Result<()> {
